@@ -506,7 +506,7 @@ Section BundleRun.
   Variable selectors_ok : list (ustring * pval) -> pval -> result bool.
   Hypothesis Hpad : vr_year_pad vr = true.
   Variable ids : list ustring.
-  Hypothesis Hclosed : closed_ok vr w ids = true.
+  Hypothesis Hclosed : closed_okw vr w ids = true.
   Hypothesis Hreg : registry_ok w = true.
   Variable pids : list ustring.
   Hypothesis Hsub : forallb (fun k => mem_ustr k ids) pids = true.
@@ -558,7 +558,7 @@ Section BundleRun.
       destruct (ustr_eqb cid0 MEMB) eqn:E.
       2:{ cbn [orb] in HP.
           exact (proj1 (claim_rc vr ev w pattern_ok selectors_ok ids f
-                   (run_construct_idem vr ev w pattern_ok selectors_ok Hpad ids (closed_ok_weaken vr w ids Hclosed) f)) cid0 a i d o HP Hp H). }
+                   (run_construct_idem vr ev w pattern_ok selectors_ok Hpad ids Hclosed f)) cid0 a i d o HP Hp H). }
       clear HP E. unfold member_clean in H.
       destruct d as [| kv d']; [discriminate |]. set (d := kv :: d') in *.
       destruct (jvalue_eqb (match alookup (u "type") d with Some t => t | None => JNull end) (JStr (u "bundle"))) eqn:Hty; try discriminate.
@@ -570,7 +570,7 @@ Section BundleRun.
       destruct (negb a && hc) eqn:Hst; try discriminate.
       inversion H; subst o. clear H.
       apply negb_false_iff in Hcov. apply andb_true_iff in Hcov. destruct Hcov as [Hci Hid].
-      destruct (parse_roundtrip_full vr ev w pattern_ok selectors_ok Hpad ids (closed_ok_weaken vr w ids Hclosed) Hreg pids Hsub Hpc f a i d ci inner dfl hc
+      destruct (parse_roundtrip_full vr ev w pattern_ok selectors_ok Hpad ids Hclosed Hreg pids Hsub Hpc f a i d ci inner dfl hc
                   Hp Hci (idcond_prop d Hid) Erp) as [R1 [Hpl [Hres [[t [Et Et']] [Hidp Hkeys]]]]].
       set (o := PObject ci inner dfl hc) in *.
       split; [unfold o, omem; rewrite !encode_obj; reflexivity |]. split; [exact Hres |]. split; [| exact Hpl].
@@ -616,7 +616,7 @@ Section BundleRun.
   Qed.
 
   (* roundtrip_equal for Bundle, constructor level *)
-  Theorem bundle_roundtrip : forall fuel kid allow interop kw vrefs o c,
+  Theorem bundle_roundtripw : forall fuel kid allow interop kw vrefs o c,
     find_class (wclasses w) kid = Some c -> bundle_ok c = true ->
     plain_dict kw = true ->
     RUN fuel (RConstruct kid allow interop kw vrefs) = Ok o ->
@@ -665,3 +665,19 @@ Section BundleRun.
     cbn [bind]. unfold post. subst o. destruct (cfamily c); try contradiction; reflexivity.
   Qed.
 End BundleRun.
+
+(* the same under the narrower table condition closed_ok (plain __init__ forms only) *)
+Theorem bundle_roundtrip : forall vr ev w pattern_ok selectors_ok, vr_year_pad vr = true ->
+  forall ids, closed_ok vr w ids = true -> registry_ok w = true ->
+  forall pids, forallb (fun k => mem_ustr k ids) pids = true ->
+    forallb (fun k => match find_class (wclasses w) k with Some c => parse_class_ok w c | None => false end) pids = true ->
+  forall fuel kid allow interop kw vrefs o c,
+    find_class (wclasses w) kid = Some c -> bundle_ok vr w ids c = true ->
+    plain_dict kw = true ->
+    run vr ev w pattern_ok selectors_ok fuel (RConstruct kid allow interop kw vrefs) = Ok o ->
+    bundle_members_ok w pids kw o = true ->
+    run vr ev w pattern_ok selectors_ok fuel (RConstruct kid allow interop (omem o) vrefs) = Ok o.
+Proof.
+  intros vr ev w po so Hpad ids Hc Hreg pids Hsub Hpc.
+  exact (bundle_roundtripw vr ev w po so Hpad ids (closed_ok_weaken vr w ids Hc) Hreg pids Hsub Hpc).
+Qed.
